@@ -374,9 +374,26 @@ def template_for(I: Interp, st: Any, fr: Frame, seq: VList) -> None:
     paths = explore_body(I, run)
     normal = [p for p in paths if p.kind == "normal"]
     raising = [p for p in paths if p.kind == "raise"]
-    if any(p.kind in ("break", "return") for p in paths):
-        raise Unsupported(f"break/return in a loop over a symbolic-length sequence "
+    returning = [p for p in paths if p.kind == "return"]
+    if any(p.kind == "break" for p in paths):
+        raise Unsupported(f"break in a loop over a symbolic-length sequence "
                           f"({fr.qualname}); needs a sidecar invariant")
+    if returning:
+        # search loop (`for x in xs: if P(x): return v(x)`): allowed when the body has no other
+        # effect - no loop-carried local and no list/object mutated on the normal path
+        def mutated(p: BodyPath) -> bool:
+            for v, len0, n0 in lists_before.values():
+                c = p.memo.get(id(v))
+                if c is None or not isinstance(c, VList):
+                    continue
+                if (c.items is not None and len0 is not None and len(c.items) != len0) or \
+                        (c.items is None) != (len0 is None) or \
+                        (c.items is None and c.n is not n0):
+                    return True
+            return False
+        if place or len(normal) != 1 or any(mutated(p) for p in normal + returning):
+            raise Unsupported(f"return in a loop with loop-carried state ({fr.qualname}); needs "
+                              f"a sidecar invariant")
     if len(normal) > 1:
         raise Unsupported(f"more than one normal path through a templated loop body "
                           f"({fr.qualname})")
@@ -389,6 +406,11 @@ def template_for(I: Interp, st: Any, fr: Frame, seq: VList) -> None:
     alts: list[Any] = []
     sks: list[Any] = []
     for p in raising:
+        sk = z3.Int(I.fresh_name("jr"))
+        sks.append(sk)
+        alts.append(z3.And(sk >= 0, sk < n, delta_at(p, sk)))
+    for p in returning:
+        # the *first* iteration that returns: every earlier one takes the normal path
         sk = z3.Int(I.fresh_name("jr"))
         sks.append(sk)
         alts.append(z3.And(sk >= 0, sk < n, delta_at(p, sk)))
@@ -406,6 +428,14 @@ def template_for(I: Interp, st: Any, fr: Frame, seq: VList) -> None:
         pairs = [(j, sks[d])]
         # placeholders stand for the state before that iteration: unconstrained (sound)
         raise PyExc(subst(p.exc, pairs))
+    if d < len(raising) + len(returning):
+        p = returning[d - len(raising)]
+        sk = sks[d]
+        nrm = normal[0] if normal else None
+        if nrm is not None:
+            I.lambda_axioms_add(lambda k, nrm=nrm, sk=sk: z3.Implies(
+                z3.And(k >= 0, k < sk), delta_at(nrm, k)))
+        raise _Return(subst(p.value, [(j, sk)]) if p.value is not None else NONE)
     p = normal[0]
     # every iteration takes the normal path
     I.lambda_axioms_add(lambda k, p=p: z3.Implies(z3.And(k >= 0, k < n), delta_at(p, k)))
@@ -586,6 +616,24 @@ def _check_inv(I: Interp, lc: LoopContract, fr: Frame, key: tuple[str, int], pha
     I.ghost["__loop_phase"] = phase
     for name, f in lc.invariant(I, fr):
         I.prove(f"{key[0]}/loop{key[1]}/inv:{name}/{phase}", f)
+
+
+def list_accumulator(fr: Frame) -> str:
+    """Name of the local that is initialised with `[]` and appended to inside a loop of the
+    function being executed (contracts refer to it by role, not by the name the code uses)."""
+    from .engine import function_ast
+    node, _ = function_ast(fr.fn)
+    inits = {t.id for st in ast.walk(node) if isinstance(st, (ast.Assign, ast.AnnAssign))
+             and isinstance(st.value, ast.List) and not st.value.elts
+             for t in ([st.target] if isinstance(st, ast.AnnAssign) else st.targets)
+             if isinstance(t, ast.Name)}
+    used = {c.func.value.id for lp in ast.walk(node) if isinstance(lp, (ast.While, ast.For))
+            for c in ast.walk(lp) if isinstance(c, ast.Call) and isinstance(c.func, ast.Attribute)
+            and c.func.attr == "append" and isinstance(c.func.value, ast.Name)}
+    cands = sorted(inits & used)
+    if len(cands) != 1:
+        raise Unsupported(f"no unique list accumulator in {fr.qualname}: {cands}")
+    return cands[0]
 
 
 def assigned_names(st: Any) -> set[str]:
